@@ -455,6 +455,12 @@ func checkTranslate(c *Ctx) {
 	wi := windowModel(tr, tb, "param[0]")
 	poolHygiene(c, "SHAPE-XLATE", family(tr))
 	frameAlignment(c, "SHAPE-XLATE", family(tr))
+	// "letter case is irrelevant": only positive evidence counts here (the text as typed reaching a search for
+	// particular letters, a comparison with a letter, a table spelt in one case); anything not followed is left
+	// to the window and lookup obligations below
+	if stCase, whyCase := judgeCase(w, tr, 0); stCase == broken {
+		c.bad("SHAPE-XLATE", "DEPEND: letter case of the sequence", tr.Pos(), whyCase+": whether (or how) a sequence is translated depends on how its letters are cased")
+	}
 	c.judge(wi.State, "SHAPE-XLATE", "Translate:window of 3 over every letter", tr.Pos(),
 		"every input letter is appended to the window unconditionally; a region runs exactly at Len()==3 and resets the window; the loop leaves only at end of input", wi.Why)
 	if wi.State == holds {
